@@ -171,15 +171,29 @@ def pool(contract, seed=0, limit=4000):
         return
     if cls_name == "Items":
         def items_objs():
+            # tuple items first, then single items / additionalItems, then the rest (the behaviour of an Items object that matters
+            # needs declared items; the first such pair used to sit beyond the quick evaluation limit)
+            from statham.schema.constants import NotPassed
+            ranked = ([], [], [])
             for mk in element_makers():
                 try:
-                    yield mk().__items__
+                    e = mk()
+                    it = getattr(e, "items", NotPassed())
+                    rank = 0 if isinstance(it, list) else 1 if (not isinstance(it, NotPassed) or getattr(e, "additionalItems", True) is not True) else 2
+                    ranked[rank].append(e)
                 except Exception:
                     continue
+            for group in ranked:
+                for e in group:
+                    try:
+                        yield e.__items__
+                    except Exception:
+                        continue
         if meth == "__getitem__":
             yield from cap((fn, (it, i)) for it in items_objs() for i in range(0, 4))
         elif meth == "__call__":
-            yield from cap((fn, (it, v, UNBOUND_PROPERTY)) for it in items_objs() for v in vals if isinstance(v, list))
+            lists = sorted([v for v in vals if isinstance(v, list)], key=len, reverse=True)
+            yield from cap((fn, (it, v, UNBOUND_PROPERTY)) for it in items_objs() for v in lists)
         elif meth == "property":
             yield from cap((fn, (UNBOUND_PROPERTY, i)) for i in range(3))
         elif meth == "__init__":
